@@ -1,6 +1,7 @@
 package main
 
 import (
+	"errors"
 	"math/rand/v2"
 	"net/http"
 	"net/http/httptest"
@@ -81,6 +82,7 @@ func (m *scriptedMeter) set(rating float64, ready bool) {
 var c02Backoff = time.Second
 
 type c02Target struct {
+	failMeter atomic.Bool // the next meter the rebalancer asks for cannot be created
 	name   string
 	rr     *roundrobin.RoundRobin
 	rb     *roundrobin.Rebalancer
@@ -129,6 +131,9 @@ func newC02Target(kind string, next http.Handler, meterMode string, r *rand.Rand
 		ropts := []roundrobin.RebalancerOption{roundrobin.RebalancerBackoff(c02Backoff)}
 		if meterMode != "default" {
 			ropts = append(ropts, roundrobin.RebalancerMeter(func() (roundrobin.Meter, error) {
+				if t.failMeter.Load() {
+					return nil, errors.New("scripted: meter cannot be created")
+				}
 				m := &scriptedMeter{}
 				t.mmu.Lock()
 				t.meters = append(t.meters, m)
@@ -337,6 +342,29 @@ func c02Script(c *Ctx) {
 				}
 				model[k] = w
 				changed = true
+			case op < 5 && r.IntN(4) == 0 && kind == "rb" && meterMode != "default" && func() bool { _, ex := model[k]; return !ex }():
+				// adding a new server through the rebalancer fails half-way (its meter cannot be created): nothing may change
+				script = append(script, sfmt("upsert(%s) with failing meter factory", u.String()))
+				t.failMeter.Store(true)
+				err := t.upsert(u, roundrobin.Weight(1+r.IntN(4)))
+				t.failMeter.Store(false)
+				c.Count("failed_adds_checked", 1)
+				quietLeft, pendingChanged = 0, false
+				if err == nil {
+					fail("upsert/failed-add-accepted", "UpsertServer returned nil although the meter for the new server could not be created")
+					return
+				}
+				keyOverride = "upsert/failed-add-changed-pool"
+				okc := check(false)
+				if okc {
+					script = append(script, "rotation")
+					okc = rotation()
+				}
+				keyOverride = ""
+				if !okc {
+					return
+				}
+				continue
 			case op < 5 && r.IntN(3) == 0: // an upsert whose option is rejected must fail and change nothing
 				_, existed := model[k]
 				w := r.IntN(7)
